@@ -33,6 +33,8 @@
  *                     read(2) calls of each handler call fail with EINTR
  *   run   i s HEX..   a whole stream at once (the model's runStream): one handler call after each
  *                     chunk, close, drain, this stream's _flush_output     -> run <th->rc|-> | S:HEX ...
+ *   rcperr i e POPT RV HEX..  pdcp/rpdcp: the real _parallel_copy() of target i (pcp_Popt = POPT, the copy
+ *                     protocol stubbed to return RV) with HEX.. as the remote stderr   -> rcp <RV> | S:HEX ...
  *   flush i           _flush_output(outbuf, out, th); _flush_output(errbuf, err, th)
  *   xrc HEX           _extract_rc on a copy of the string                   -> <ret> <string after>
  * Answers of feed/eof/drain/flush:  <ncalls> <last ret> <th->rc> | S:HEX S:HEX ...   (S = 1 stdout,
@@ -458,6 +460,38 @@ int main(int argc, char **argv)
                 ans_int(rc);
                 ans_str(" ");
                 ans_int(th->rc);
+                ans_emissions();
+                ans_flush();
+                continue;
+            }
+            if (!strcmp(op, "rcperr")) {
+                /* pdcp/rpdcp: the real _parallel_copy() with the copy protocol stubbed to return RV; the whole
+                 * remote stderr is in the pipe and the remote side has closed (the loop inside does not give
+                 * control back).  _parallel_copy closes both descriptors itself. */
+                char *ap = strtok_r(NULL, " \t\r\n", &save);
+                char *arv = strtok_r(NULL, " \t\r\n", &save);
+                char *hx;
+                int bad = 0;
+                if (!ap || !arv || s != 1 || wfd[1][i] < 0) { ans_str("bad-op"); ans_flush(); continue; }
+                while ((hx = strtok_r(NULL, " \t\r\n", &save))) {
+                    size_t len;
+                    unsigned char *b = unhex(hx, &len);
+                    if (len > 0 && pipe_write_all(wfd[1][i], b, len) < 0) bad = 1;
+                    free(b);
+                }
+                if (bad) { ans_str("bad-op pipe"); ans_flush(); continue; }
+                close(wfd[1][i]);
+                wfd[1][i] = -1;
+                th->pcp_Popt = atoi(ap) != 0;
+                th->dsh_sopt = true;
+                relay_pcp_rv_set = 1;
+                relay_pcp_rv = atoi(arv);
+                _parallel_copy(th);
+                relay_pcp_rv_set = 0;
+                th->rcmd->fd = -1;               /* closed by _parallel_copy */
+                th->rcmd->efd = -1;
+                ans_str("rcp ");
+                ans_int(atoi(arv));
                 ans_emissions();
                 ans_flush();
                 continue;
